@@ -7,7 +7,9 @@ In every model of this development a read is a function `State → Args → Resu
 a read equals the state before" and "the same read twice gives the same answer" hold by
 construction and say nothing about the Python objects – that is the correspondence run's job.
 What is proved here is the provenance discipline: each in-place write that occurs on a read path
-targets a freshly allocated container.
+targets a freshly allocated container.  `Properties/C18Index.lean` puts the read paths on the
+object-level heaps of persistent objects (the ones C19 and C09 use) and proves that every read
+writes only to objects it allocates, with this table as what the reads return.
 -/
 namespace Hyp.Alias
 
